@@ -1,7 +1,7 @@
 (** Property C07 — 1-D MOC serialisation round-trips.  Statements only. *)
-From Coq Require Import List NArith Permutation.
+From Coq Require Import List NArith Permutation Sorted.
 From MOC.Base Require Import RangeSet.
-From MOC.Model Require Import Qty Query Build Repr Serial.
+From MOC.Model Require Import Qty Query Build Repr Serial CellsSM Adapters AsciiCodec AsciiProofs AsciiMoc.
 Import ListNotations.
 Open Scope N_scope.
 
@@ -38,12 +38,73 @@ Theorem C07_cell_range_notation : forall q w depth n a x,
   (a * 2 ^ shift q w depth <= x /\ x < (a + N.of_nat n) * 2 ^ shift q w depth).
 Proof. exact expand_range_cov. Qed.
 
+(** ---- IVOA ASCII, character level (Model/AsciiCodec.v: to_ascii_ivoa / from_ascii_ivoa as written) ---- *)
+
+(** decimal printing and the tokeniser's number parser are inverse on every index of the width *)
+Theorem C07_ascii_number_roundtrip : forall w x r, w <= 64 -> x < 2 ^ w -> nodigit_head r ->
+  parse_val w (adec x ++ r) = Some (x, r).
+Proof. exact parse_val_dec. Qed.
+
+(** writer then reader, on ANY list of well-formed pairwise disjoint cells / cell ranges of depth
+    <= dmax, for EVERY fold width and both range notations: the reader accepts, returns dmax and the
+    elements (bucketed by depth, a permutation, then sorted by the reader) *)
+Theorem C07_ascii_roundtrip : forall (sortf : qty -> list aelem -> list aelem),
+  (forall q l, Permutation (sortf q l) l) ->
+  forall q w dmax fold ul es, okw w -> dmax <= max_depth q w -> Forall (elem_wf q dmax) es -> Disj q w es ->
+  from_ascii sortf q w (to_ascii dmax fold ul es) = AOk (dmax, sortf q (regroup dmax es)).
+Proof. exact ascii_roundtrip. Qed.
+
+Theorem C07_ascii_regroup_is_permutation : forall dmax es,
+  Forall (fun x => adepth x <= dmax) es -> Permutation (regroup dmax es) es.
+Proof. exact regroup_perm. Qed.
+
+(** whatever the characters read, an accepted document is a list of well-formed elements of depth <=
+    the returned depth <= MAX_DEPTH, ascending and pairwise disjoint (the adjacent-overlap test after
+    the sort by flat_cmp is a complete validation) *)
+Theorem C07_ascii_reader_sound : forall (sortf : qty -> list aelem -> list aelem),
+  (forall q l, Permutation (sortf q l) l) ->
+  (forall q l, Sorted (fun a b => flat_leb q a b = true) (sortf q l)) ->
+  forall q w s dm l, from_ascii sortf q w s = AOk (dm, l) ->
+  dm <= max_depth q w /\ Forall (elem_wf q dm) l /\ asc 0 (map (erange q w) l).
+Proof. exact reader_sound. Qed.
+
+(** the executable sort used by the oracle meets both hypotheses *)
+Theorem C07_ascii_sort_instance : forall q l,
+  Permutation (isort_e q l) l /\ Sorted (fun a b => flat_leb q a b = true) (isort_e q l).
+Proof. exact isort_e_ok. Qed.
+
+(** the whole chain for a MOC: cells (normal form) -> cellranges() -> to_ascii_ivoa -> from_ascii_ivoa
+    -> ranges() gives back the depth and the ranges of every valid MOC *)
+Theorem C07_ascii_moc_roundtrip : forall (sortf : qty -> list aelem -> list aelem),
+  (forall q l, Permutation (sortf q l) l) ->
+  (forall q l, Sorted (fun a b => flat_leb q a b = true) (sortf q l)) ->
+  forall q w d l cells fold ul, okw w -> d <= max_depth q w -> Canon l -> NormalCells q w d l cells ->
+  exists l', from_ascii sortf q w (to_ascii d fold ul (elems_of_cells cells)) = AOk (d, l') /\
+             ranges_of_elems q w l' = l.
+Proof. exact ascii_cells_roundtrip. Qed.
+
+(** ... and the cells the code computes are that normal form (C05) *)
+Theorem C07_ascii_cells_are_normal : forall q w d l, ValidMoc q w d l -> NormalCells q w d l (moc_cells q w d l).
+Proof. exact moc_cells_normal. Qed.
+
 Example C07_nonvacuous :
   encode_rows 2 [(1, 258); (1024, 12288)] = [0; 1; 1; 2; 4; 0; 48; 0] /\
   decode_rows 2 2 [0; 1; 1; 2; 4; 0; 48; 0] = [(1, 258); (1024, 12288)] /\
   fits_pad 8 = 2872 /\
   decode_cells Hpx 16 [(2, 17); (0, 0)] = [(0, 1024); (1088, 1152)].
 Proof. repeat split; vm_compute; reflexivity. Qed.
+
+Example C07_ascii_nonvacuous :
+  let cells := [(2, 3); (1, 1); (1, 2); (1, 3); (2, 20); (3, 100)] in
+  let es := elems_of_cells cells in
+  Forall (elem_wf Hpx 4) es /\ Disj Hpx 64 es /\
+  from_ascii isort_e Hpx 64 (to_ascii 4 (Some 8) true es) = AOk (4, es) /\
+  to_ascii 4 None false es = [49; 47; 49; 45; 51; 32; 50; 47; 51; 32; 50; 48; 32; 51; 47; 49; 48; 48; 32; 52; 47; 32].
+Proof.
+  split; [|split; [|split; vm_compute; reflexivity]].
+  - repeat (constructor || split); vm_compute; try reflexivity; try discriminate.
+  - repeat constructor; vm_compute; reflexivity.
+Qed.
 
 Print Assumptions C07_fits_rows_roundtrip.
 Print Assumptions C07_big_endian_roundtrip.
@@ -52,3 +113,10 @@ Print Assumptions C07_fits_block_structure.
 Print Assumptions C07_valid_moc_fits_width.
 Print Assumptions C07_text_roundtrip.
 Print Assumptions C07_cell_range_notation.
+Print Assumptions C07_ascii_number_roundtrip.
+Print Assumptions C07_ascii_roundtrip.
+Print Assumptions C07_ascii_regroup_is_permutation.
+Print Assumptions C07_ascii_reader_sound.
+Print Assumptions C07_ascii_sort_instance.
+Print Assumptions C07_ascii_moc_roundtrip.
+Print Assumptions C07_ascii_cells_are_normal.
